@@ -22,6 +22,7 @@ from batchie.data import (  # noqa: E402
 )
 
 PROP = "C01"
+EPILOGUE_ITEMS = 2
 LEVEL = "model_checking"
 ENGINE = "E1-input-enumeration"
 TECHNIQUE = "bounded-exhaustive enumeration of screens / encoder inputs against a dictionary reference model"
